@@ -954,12 +954,14 @@ func (r *transformingReader) Read(data []byte) (n int, err error) {
 			offset = r.envRemain
 			r.envRemain = 0
 		}
-		var err error
 		if len(data) > offset && r.buffer != nil {
-			n, err = r.buffer.Read(data[offset:])
+			// An io.EOF here only means the current message's buffer is
+			// drained (e.g. a zero-length message); it is not the end of
+			// the request stream.
+			n, _ = r.buffer.Read(data[offset:])
 		}
 		if offset+n > 0 {
-			return offset + n, err
+			return offset + n, nil
 		}
 
 		// If we get here, there was nothing in tr.buffer to read, so
